@@ -1,7 +1,7 @@
 import Driver.Util
 import Originium.Model.Filter
 import Originium.Model.Skiplist
-import Originium.Model.WM2
+import Originium.Model.Watermark
 /-! Suites `key`, `filter`, `skiplist`, `wm`. -/
 namespace Driver
 open Key VKey
@@ -117,17 +117,17 @@ def skipStep (s : SkipSt) (toks : List String) : SkipSt × String :=
     | none => (s, "bad-op")
   | _ => (s, "bad-op")
 
-/-! ### wm : pkg/watermark/watermark.go (Begin / Done; waiters are in `Watermark.lean`) -/
-def wmStep (s : WM2.St) (toks : List String) : WM2.St × String :=
+/-! ### wm : pkg/watermark/watermark.go -/
+def wmStep (s : Watermark.St) (toks : List String) : Watermark.St × String :=
   match toks with
-  | ["new"] => (WM2.init, "ok")
+  | ["new"] => (Watermark.init, "ok")
   | ["b", t] =>
     match t.toNat? with
-    | some t => let s' := WM2.step s (.begin t); (s', toString s'.doneUntil)
+    | some t => let s' := Watermark.step s (.mark (.begin t)); (s', toString s'.core.doneUntil)
     | none => (s, "bad-op")
   | ["d", t] =>
     match t.toNat? with
-    | some t => let s' := WM2.step s (.done t); (s', toString s'.doneUntil)
+    | some t => let s' := Watermark.step s (.mark (.done t)); (s', toString s'.core.doneUntil)
     | none => (s, "bad-op")
   | ["burst", ms] =>
     let marks : Option (List WM2.Mark) := (ms.splitOn ",").mapM fun m =>
@@ -136,7 +136,26 @@ def wmStep (s : WM2.St) (toks : List String) : WM2.St × String :=
       | ["d", t] => t.toNat?.map WM2.Mark.done
       | _ => none
     match marks with
-    | some marks => let s' := marks.foldl WM2.step s; (s', toString s'.doneUntil)
+    | some marks => let s' := marks.foldl (fun s m => Watermark.step s (.mark m)) s; (s', toString s'.core.doneUntil)
+    | none => (s, "bad-op")
+  | ["wait", id, t] =>
+    -- WaitForMark(t) from its own goroutine: fast path, or a waiter registered through the channel
+    match id.toNat?, t.toNat? with
+    | some id, some t =>
+      if Watermark.fastPath s t then ({ s with released := (t, id) :: s.released }, "ok")
+      else (Watermark.step s (.wait t id), "ok")
+    | _, _ => (s, "bad-op")
+  | ["chk", id] =>
+    match id.toNat? with
+    | some id =>
+      if s.released.any (fun w => w.2 == id) then (s, "released")
+      else if s.waiters.any (fun w => w.2 == id) then (s, "waiting")
+      else (s, "unknown")
+    | none => (s, "bad-op")
+  | ["waitctx", t] =>
+    -- WaitForMark with an already cancelled context: nil iff the fast path applies
+    match t.toNat? with
+    | some t => (s, if Watermark.fastPath s t then "released" else "ctxerr")
     | none => (s, "bad-op")
   | _ => (s, "bad-op")
 
